@@ -11,9 +11,9 @@ HERE = os.path.dirname(os.path.abspath(__file__))
 sys.path.insert(0, HERE)
 
 FAMILIES = {
-    "graph": ("fam_graph", ["C01", "C04", "C05", "C07", "C08", "C20"]),
+    "graph": ("fam_graph", ["C01", "C04", "C05", "C07", "C08", "C09", "C20"]),
     "incr": ("fam_incr", ["C02", "C03", "C05", "C12", "C13", "C15", "C18"]),
-    "clean": ("fam_clean", ["C12", "C08"]),
+    "clean": ("fam_clean", ["C12", "C08", "C15"]),
     "config": ("fam_config", ["C09", "C13", "C14", "C19", "C18"]),
     "live": ("fam_live", ["C01", "C04", "C06", "C07", "C08", "C10", "C11", "C15", "C16"]),
 }
@@ -27,7 +27,7 @@ def build_binary(repo):
     return os.path.join(repo, "target/debug/zinoma"), ""
 
 
-def all_cases(pid, seed):
+def all_cases(pid, seed, tier="quick"):
     import importlib
     cs = []
     for fam, (mod, pids) in FAMILIES.items():
@@ -37,12 +37,12 @@ def all_cases(pid, seed):
             m = importlib.import_module(mod)
         except ImportError:
             continue
-        cs += m.cases(seed)
+        cs += m.cases(seed, tier)
     return cs
 
 
-def run(pid, binary, seed=0, only=None, workers=8):
-    cs = [c for c in all_cases(pid, seed) if only is None or c.name == only]
+def run(pid, binary, seed=0, only=None, workers=8, tier="quick"):
+    cs = [c for c in all_cases(pid, seed, tier) if only is None or c.name == only]
     with ThreadPoolExecutor(max_workers=workers) as ex:
         recs = list(ex.map(lambda c: c.run(binary), cs))
     def _props(r):
@@ -70,11 +70,12 @@ if __name__ == "__main__":
     binary = a[a.index("--binary") + 1] if "--binary" in a else None
     seed = int(a[a.index("--seed") + 1]) if "--seed" in a else 0
     only = a[a.index("--case") + 1] if "--case" in a else None
+    tier = a[a.index("--tier") + 1] if "--tier" in a else "quick"
     if not binary:
         binary, err = build_binary(os.environ.get("ZV_REPO", "/repo"))
         if not binary:
             print(err)
             sys.exit(2)
-    r = run(pid, binary, seed, only)
+    r = run(pid, binary, seed, only, tier=tier)
     print(json.dumps(r, indent=1))
     sys.exit(1 if r["failed"] else 0)
